@@ -136,6 +136,11 @@ fn fixture(dir: &str, list: &Option<String>) -> Fx {
     for (k, v) in [("apple", "1"), ("buzz", "2"), ("xmidx", "3"), ("other", "4"), ("$$secret", "s"), ("n", "5")] {
         adm.call(&node.dbs, &format!("set {} {}", k, v));
     }
+    // some keys have been written twice: their version is 1, so the `set-safe <key> 0 v` of the matrix is a stale write
+    // for them (a refused stale write is one more way a command can answer, and must give nothing away either)
+    for (k, v) in [("apple", "1"), ("xmidx", "3")] {
+        adm.call(&node.dbs, &format!("set {} {}", k, v));
+    }
     // a second database the sessions under test never present a credential for
     adm.call(&node.dbs, "use-db other otok");
     for (k, v) in [("apple", "o1"), ("n", "7"), ("buzz", "o2")] {
@@ -236,6 +241,8 @@ fn run_session(cred: &Cred, lines: &[(String, Option<Option<String>>)], secondar
     let mut refused_n = 0u64;
     let mut allowed_n = 0u64;
     let mut distinct: Vec<String> = vec![];
+    // keys this session subscribed to with a watch the model allowed
+    let mut subscribed: BTreeSet<String> = BTreeSet::new();
     for (line, perm_change) in lines {
         if let Some(newlist) = perm_change {
             // permission change made by an administrator in the middle of the session
@@ -255,6 +262,9 @@ fn run_session(cred: &Cred, lines: &[(String, Option<Option<String>>)], secondar
         }
         let need = need_of(line);
         let expect = allowed(&cur_cred, &need);
+        if let (Need::Key(k, 'r'), Some(true), true) = (&need, expect, line.starts_with("watch ")) {
+            subscribed.insert(k.clone());
+        }
         let before = dump_all(&fx.node.dbs);
         let other_before = crate::common::node::dump_db(&fx.node.dbs, "other");
         let sel_before = (s.client.selected_db_name(), s.client.selected_db_user_name(), s.client.is_admin_auth());
@@ -315,6 +325,25 @@ fn run_session(cred: &Cred, lines: &[(String, Option<Option<String>>)], secondar
                 distinct.push(format!("{}/{}/allowed", cred_class, inner_word));
                 if is_credential_error(&reply.resp) {
                     problem = Some("permitted-command-refused");
+                } else if let (Cred::User(list), true) = (&cur_cred, !["get", "get-safe"].contains(&inner_word.as_str())) {
+                    // a permitted command of another kind (write, increment, remove, watch ...) is no licence to read: a
+                    // value may reach a user session only through a read the permission list grants for that key
+                    for p in &pushed {
+                        let mut it = p.trim_end().splitn(3, ' ');
+                        let (w0, k0) = (it.next().unwrap_or(""), it.next().unwrap_or(""));
+                        let leaked = match w0 {
+                            "value" | "value-version" => true,
+                            // (a subscription taken while the list granted the read stays, whatever the list says later)
+                            "changed" | "changed-version" | "removed" => !subscribed.contains(k0) && !list.as_ref().map(|l| list_grants(l, k0, 'r')).unwrap_or(false),
+                            _ => false,
+                        };
+                        if leaked {
+                            problem = Some("command-without-read-permission-returned-a-value");
+                        }
+                    }
+                    if problem.is_none() && ["set", "set-safe", "increment", "remove"].contains(&word.as_str()) && (repl_msgs.len() > 1 || to_primary.len() > 1) {
+                        problem = Some("permitted-command-acted-more-than-once");
+                    }
                 } else if matches!(cur_cred, Cred::User(_)) && ["set", "set-safe", "increment", "remove"].contains(&word.as_str()) && (repl_msgs.len() > 1 || to_primary.len() > 1) {
                     // one permitted write of a user is one change: one record for the operation log, one message for the primary
                     problem = Some("permitted-command-acted-more-than-once");
